@@ -685,6 +685,10 @@ ORACLES = {'C01': o_c01, 'C02': o_c02, 'C03': o_c03, 'C04': o_c04, 'C05': o_c05,
 
 
 def run_oracle(prop, spec, external_cancel_at=None):
+    if prop == 'C13' and spec.get('rerun'):
+        # co_shutdown is sent once in a scheduler's life ("a later explicit shutdown() sends nothing more"): a
+        # second run of the same tree is outside what C13 speaks of; the scenario is judged on its first run
+        spec = dict(spec, rerun=False, rerun_edge=None)
     sample = sample_predicates if prop == 'C14' else None
     b, r = execute(spec, external_cancel_at=external_cancel_at, sample=sample)
     v = View(b, r)
